@@ -264,8 +264,10 @@ def modcovar(x, order):
 
 
     Cz = np.dot(X1.conj().transpose(), Xc)
-    e = np.dot(X1.conj().transpose(), X1) + np.dot(Cz, a)
-    assert e.imag < 1e-4, 'wierd behaviour'
+    e0 = np.dot(X1.conj().transpose(), X1)
+    e = e0 + np.dot(Cz, a)
+    # the imaginary part is round-off: compare it with the signal energy, not with an absolute threshold
+    assert abs(e.imag) <= 1e-4 * abs(e0), 'wierd behaviour'
     e = float(e.real) # ignore imag part that should be small
 
     return a, e
